@@ -6,10 +6,12 @@ import Rink.Driver.Expr
 import Rink.Driver.Subst
 import Rink.Driver.Cache
 import Rink.Driver.Load
+import Rink.Driver.Dates
 
 def main (args : List String) : IO UInt32 := do
   match args with
   | ["alloc"] => Rink.Driver.Alloc.main; return 0
+  | ["dates"] => Rink.Driver.Dates.main; return 0
   | ["loadt", path] => Rink.Driver.Load.loadtMain path; return 0
   | "load" :: rest => Rink.Driver.Load.loadMain rest; return 0
   | ["defs", path] => Rink.Driver.Load.defsMain path; return 0
